@@ -1071,7 +1071,7 @@ writefd(const char *dir)
 		return -1;
 	}
 
-	fd = mkstemp(path);
+	fd = mkostemp(path, O_CLOEXEC);
 	if (fd == -1) {
 		warn("mkstemp");
 		return -1;
